@@ -6,7 +6,11 @@
 //                   layouts, family I deck and the equivalent family II deck
 //                   (SWFN/SGFN/SOF3 generated on the family I nodes);
 //                   node reproduction, bracketing/monotone interpolation,
-//                   range, family I == family II.
+//                   range, family I == family II == SWOF/SLGOF twin; the end-points the
+//                   satfunc initialisers derive and fieldProps' defaulted end-point arrays
+//                   (incl. I-arrays) == values read off the nodes; the same on ENDSCALE
+//                   decks with all arrays defaulted, and for two-phase oil/water
+//                   (SWOF | SWFN+SOF2) and oil/gas (SGOF | SGFN+SOF2) decks.
 //   b  eps        : ENDSCALE, every subset (size <= 2 quick / <= 3 thorough)
 //                   of 17 end-point arrays x 2 shifted values each x two/three
 //                   point scaling; scaled end-points map onto the table's
@@ -21,7 +25,7 @@
 //                   end-point arrays move the connate, critical and maximum nodes; oracles of c
 //                   in scaled saturation against a hysteresis-free manager with the same
 //                   end-points; forward and inverse saturation maps are mutual inverses (also in b).
-// Case strings (replay):  "a <listsize> <idx> <partner> <nreg> <field>"
+// Case strings (replay):  "a <listsize> <idx> <partner> <nreg> <field> <es>", "a2 <phases> <listsize> <idx> <es>"
 //                         "b <base> <mode> <k>:<v>,<k>:<v>..."
 //                         "c <table> <model> <flag> <imb> <levels> <e,e,e...>"
 //                         "d <model> <flag> <mode> <endpointset> <imb> <levels> <e,e,e...>"
@@ -36,6 +40,8 @@
 #include <opm/input/eclipse/EclipseState/EclipseState.hpp>
 #include <opm/input/eclipse/EclipseState/Grid/EclipseGrid.hpp>
 #include <opm/input/eclipse/EclipseState/Grid/FieldPropsManager.hpp>
+#include <opm/input/eclipse/EclipseState/Grid/SatfuncPropertyInitializers.hpp>
+#include <opm/input/eclipse/EclipseState/Tables/TableManager.hpp>
 #include <opm/input/eclipse/Parser/Parser.hpp>
 
 #include <array>
@@ -145,6 +151,8 @@ static EndPts tableEndPts(const Tab& w, const Tab& g) {
 struct DeckSpec {
     int ncell = 1, nreg = 1;
     bool field = false, family2 = false, endscale = false, threept = false;
+    int form = 0;                        // 0: family I SWOF/SGOF, 1: family II SWFN/SGFN/SOF3 (SOF2), 2: family I with SLGOF instead of SGOF
+    int phases = 0;                      // 0: oil/gas/water, 1: oil/water, 2: oil/gas
     std::string ehystr;                  // record body of EHYSTR ("" = no hysteresis)
     std::vector<Tab> swof, sgof;         // per region
     std::string satnum, imbnum;          // REGIONS data (text), imbnum may be empty
@@ -155,31 +163,53 @@ static void rows(std::string& o, const std::vector<std::vector<double>>& cols) {
     o += "/\n";
 }
 static std::string deck_text(const DeckSpec& d) {
-    std::string o = "RUNSPEC\nDIMENS\n " + std::to_string(d.ncell) + " 1 1 /\nTABDIMS\n " + std::to_string(d.nreg) + " /\nOIL\nGAS\nWATER\n";
+    const int form = d.family2 ? 1 : d.form;
+    std::string o = "RUNSPEC\nDIMENS\n " + std::to_string(d.ncell) + " 1 1 /\nTABDIMS\n " + std::to_string(d.nreg) + " /\nOIL\n";
+    if (d.phases != 1) o += "GAS\n";
+    if (d.phases != 2) o += "WATER\n";
     o += d.field ? "FIELD\n" : "METRIC\n";
     if (d.endscale) o += "ENDSCALE\n/\n";
     if (!d.ehystr.empty()) o += "SATOPTS\n HYSTER /\n";
     const std::string n = std::to_string(d.ncell) + "*";
     o += "GRID\nDX\n " + n + "100 /\nDY\n " + n + "100 /\nDZ\n " + n + "10 /\nTOPS\n " + n + "2000 /\nPORO\n " + n + "0.2 /\nPROPS\n";
-    if (!d.family2) {
-        o += "SWOF\n"; for (auto& t : d.swof) rows(o, {t.x, t.a, t.b, t.pc});
-        o += "SGOF\n"; for (auto& t : d.sgof) rows(o, {t.x, t.a, t.b, t.pc});
+    const bool water = d.phases != 2, gas = d.phases != 1;
+    auto slgof = [&]() {
+        o += "SLGOF\n";
+        for (auto& t : d.sgof) {
+            std::vector<double> sl, krg, krog, pc;
+            for (size_t i = t.x.size(); i-- > 0;) { sl.push_back(1.0 - t.x[i]); krg.push_back(t.a[i]); krog.push_back(t.b[i]); pc.push_back(t.pc[i]); }
+            rows(o, {sl, krg, krog, pc});
+        }
+    };
+    if (form != 1) {
+        if (water) { o += "SWOF\n"; for (auto& t : d.swof) rows(o, {t.x, t.a, t.b, t.pc}); }
+        if (gas) { if (form == 2) slgof(); else { o += "SGOF\n"; for (auto& t : d.sgof) rows(o, {t.x, t.a, t.b, t.pc}); } }
     } else {
-        o += "SWFN\n"; for (auto& t : d.swof) rows(o, {t.x, t.a, t.pc});
-        o += "SGFN\n"; for (auto& t : d.sgof) rows(o, {t.x, t.a, t.pc});
-        o += "SOF3\n";
-        for (size_t r = 0; r < d.swof.size(); ++r) {
-            const Tab& w = d.swof[r]; const Tab& g = d.sgof[r];
-            const double swco = w.x.front();
-            std::vector<double> so;
-            for (double s : w.x) so.push_back(1.0 - s);
-            for (double s : g.x) so.push_back((1.0 - swco) - s);
-            std::sort(so.begin(), so.end());
-            std::vector<double> u;
-            for (double s : so) if (u.empty() || s - u.back() > 1e-9) u.push_back(s);
-            std::vector<double> krow, krog;
-            for (double s : u) { krow.push_back(pl(w.x, w.b, 1.0 - s)); krog.push_back(pl(g.x, g.b, (1.0 - swco) - s)); }
-            rows(o, {u, krow, krog});
+        if (water) { o += "SWFN\n"; for (auto& t : d.swof) rows(o, {t.x, t.a, t.pc}); }
+        if (gas) { o += "SGFN\n"; for (auto& t : d.sgof) rows(o, {t.x, t.a, t.pc}); }
+        if (water && gas) {
+            o += "SOF3\n";
+            for (size_t r = 0; r < d.swof.size(); ++r) {
+                const Tab& w = d.swof[r]; const Tab& g = d.sgof[r];
+                const double swco = w.x.front();
+                std::vector<double> so;
+                for (double s : w.x) so.push_back(1.0 - s);
+                for (double s : g.x) so.push_back((1.0 - swco) - s);
+                std::sort(so.begin(), so.end());
+                std::vector<double> u;
+                for (double s : so) if (u.empty() || s - u.back() > 1e-9) u.push_back(s);
+                std::vector<double> krow, krog;
+                for (double s : u) { krow.push_back(pl(w.x, w.b, 1.0 - s)); krog.push_back(pl(g.x, g.b, (1.0 - swco) - s)); }
+                rows(o, {u, krow, krog});
+            }
+        } else {
+            // two-phase: SOF2 on the nodes of the one family I table (So = 1 - Sw resp. 1 - Sg)
+            o += "SOF2\n";
+            for (auto& t : (water ? d.swof : d.sgof)) {
+                std::vector<double> so, kro;
+                for (size_t i = t.x.size(); i-- > 0;) { so.push_back(1.0 - t.x[i]); kro.push_back(t.b[i]); }
+                rows(o, {so, kro});
+            }
         }
     }
     if (d.threept) o += "SCALECRS\n YES /\n";
@@ -224,16 +254,19 @@ static std::string rp_(const std::string& c) { return "{\"case\": " + vf::jstr(c
 // Labelled observation vector through the public three-phase API: 1-D lattices
 // (Sg = 0; Sw = swco) with 101 points and the 21-level (Sw,Sg) triangle.
 struct Obs { std::vector<double> v; std::vector<const char*> q; };
-static void obsPublic(Obs& o, Mgr& m, unsigned cell, double swco) {
+// off: lattice offset (used for cells with moved end-points, so that no lattice point coincides with an end-point:
+// with KRWR/KRORW/KRGR/KRORG and two-point horizontal scaling the scaled curve jumps at the displacing critical saturation)
+static void obsPublic(Obs& o, Mgr& m, unsigned cell, double swco, double off = 0.0) {
     for (int k = 0; k <= 100; ++k) {
-        const double sw = k / 100.0;
+        const double sw = k / 100.0 + off;
+        if (sw > 1.0) break;
         Out r = evalAt(m, cell, sw, 1.0 - sw, 0.0);
         o.v.push_back(r.kr[0]); o.q.push_back("krw");
         o.v.push_back(r.kr[1]); o.q.push_back("krow");
         o.v.push_back(-r.pc[0]); o.q.push_back("pcow");
     }
     for (int k = 0; k <= 100; ++k) {
-        const double sg = k / 100.0, so = (1.0 - swco) - sg;
+        const double sg = k / 100.0 + off, so = (1.0 - swco) - sg;
         if (so < 0) break;
         Out r = evalAt(m, cell, swco, so, sg);
         o.v.push_back(r.kr[2]); o.q.push_back("krg");
@@ -241,7 +274,8 @@ static void obsPublic(Obs& o, Mgr& m, unsigned cell, double swco) {
         o.v.push_back(r.pc[2]); o.q.push_back("pcgo");
     }
     for (int i = 0; i <= 20; ++i) for (int j = 0; i + j <= 20; ++j) {
-        const double sw = i / 20.0, sg = j / 20.0;
+        const double sw = i / 20.0 + off, sg = j / 20.0 + off;
+        if (sw + sg > 1.0) continue;
         Out r = evalAt(m, cell, sw, 1.0 - sw - sg, sg);
         o.v.push_back(r.kr[0]); o.q.push_back("tri-krw");
         o.v.push_back(r.kr[1]); o.q.push_back("tri-kro");
@@ -253,6 +287,56 @@ static void obsPublic(Obs& o, Mgr& m, unsigned cell, double swco) {
 static uint64_t obsHash(const Obs& o) { return vf::fnv(o.v.data(), o.v.size() * sizeof(double)); }
 static double obsScale(const Obs& o, const char* q) {
     double s = 1.0; for (size_t i = 0; i < o.v.size(); ++i) if (o.q[i] == q && std::fabs(o.v[i]) > s) s = std::fabs(o.v[i]); return s;
+}
+
+enum Arr { SWL, SWCR, SWU, SGL, SGCR, SGU, SOWCR, SOGCR, KRW, KRWR, KRO, KRORW, KRORG, KRG, KRGR, PCW, PCG, NARR };
+static const char* ARRN[NARR] = {"SWL", "SWCR", "SWU", "SGL", "SGCR", "SGU", "SOWCR", "SOGCR", "KRW", "KRWR", "KRO", "KRORW", "KRORG", "KRG", "KRGR", "PCW", "PCG"};
+static const double SHIFT[NARR][2] = {{0.10, 0.12}, {0.22, 0.30}, {0.95, 0.88}, {0.02, 0.04}, {0.08, 0.12}, {0.80, 0.78}, {0.18, 0.22}, {0.16, 0.24},
+                                      {0.5, 0.9}, {0.2, 0.4}, {0.6, 0.95}, {0.3, 0.5}, {0.3, 0.5}, {0.6, 0.95}, {0.3, 0.5}, {1.0, 3.0}, {0.2, 0.8}};
+static double& fld(EndPts& e, int a) {
+    switch (a) { case SWL: return e.swl; case SWCR: return e.swcr; case SWU: return e.swu; case SGL: return e.sgl; case SGCR: return e.sgcr; case SGU: return e.sgu;
+                 case SOWCR: return e.sowcr; case SOGCR: return e.sogcr; case KRW: return e.krw; case KRWR: return e.krwr; case KRO: return e.kro; case KRORW: return e.krorw;
+                 case KRORG: return e.krorg; case KRG: return e.krg; case KRGR: return e.krgr; case PCW: return e.pcw; default: return e.pcg; }
+}
+
+// ------------------------------------------------- derived end-points ------
+// What the satfunc initialisers derive from the tables (raw end-points, function values) and what
+// EclipseState.fieldProps() hands out for a defaulted end-point array (also the I-arrays) must equal the
+// values read off the generated nodes.  mask: arrays that are meaningful for the phase set.
+static const char* FORMN[3] = {"famI", "famII", "slgof"};
+static unsigned maskOf(int phases) {
+    unsigned m = 0;
+    auto on = [&](std::initializer_list<int> l) { for (int a : l) m |= 1u << a; };
+    if (phases != 2) on({SWL, SWCR, SWU, SOWCR, KRW, KRWR, KRORW, PCW});
+    if (phases != 1) on({SGL, SGCR, SGU, SOGCR, KRG, KRGR, KRORG, PCG});
+    on({KRO});
+    return m;
+}
+static void checkDerived(World& w, int region, const std::vector<unsigned>& cells, EndPts T, int phases, double unit, int form, const std::string& keyPrefix, const std::string& cs) {
+    const auto& rs = w.es->runspec();
+    const auto rtep = Opm::satfunc::getRawTableEndpoints(w.es->getTableManager(), rs.phases(), rs.saturationFunctionControls().minimumRelpermMobilityThreshold());
+    const auto rf = Opm::satfunc::getRawFunctionValues(w.es->getTableManager(), rs.phases(), rtep);
+    const int r = region;
+    const double raw[NARR] = {rtep.connate.water[r], rtep.critical.water[r], rtep.maximum.water[r], rtep.connate.gas[r], rtep.critical.gas[r], rtep.maximum.gas[r],
+                              rtep.critical.oil_in_water[r], rtep.critical.oil_in_gas[r], rf.krw.max[r], rf.krw.r[r], rf.kro.max[r], rf.kro.rw[r], rf.kro.rg[r],
+                              rf.krg.max[r], rf.krg.r[r], rf.pc.w[r], rf.pc.g[r]};
+    const unsigned mask = maskOf(phases);
+    for (int a = 0; a < NARR; ++a) {
+        if (!(mask >> a & 1)) continue;
+        const double want = fld(T, a) * (a == PCW || a == PCG ? unit : 1.0);
+        if (!close_(raw[a], want, want))
+            R->violation(keyPrefix + ARRN[a] + ":table-derived:" + FORMN[form], std::string("satfunc initialisers derive ") + ARRN[a] + " = " + g17(raw[a]) + " for region " + std::to_string(r + 1) + ", the table's own value is " + g17(want) + " (" + FORMN[form] + ") [" + cs + "]", rp_(cs));
+        if (!cells.empty()) for (const char* pre : {"", "I"}) {
+            const auto& arr = w.es->fieldProps().get_double(std::string(pre) + ARRN[a]);
+            for (unsigned c : cells) {
+                if (!close_(arr[c], want, want)) {
+                    R->violation(keyPrefix + ARRN[a] + ":defaulted-array:" + FORMN[form], std::string("fieldProps ") + pre + ARRN[a] + "[" + std::to_string(c) + "] defaults to " + g17(arr[c]) + ", the table's own value is " + g17(want) + " (region " + std::to_string(r + 1) + ", " + FORMN[form] + ") [" + cs + "]", rp_(cs));
+                    break;
+                }
+            }
+        }
+        R->count("derived_endpoint_checks");
+    }
 }
 
 // ============================================================ part a =======
@@ -281,12 +365,13 @@ static std::string comboStr(const Combo& k) {
     return b;
 }
 
+static std::string g_pfxA = "C15:unscaled:";       // key prefix of the curve checks ("C15:eps-default:" on ENDSCALE decks with defaulted arrays)
 // node / bracket / monotone / range checks of one tabulated curve
 //   f(s): value through the real code; x,y: nodes (y already in SI); dir: +1 non-decreasing, -1 non-increasing
 template <class F>
 static void checkCurve(const char* q, F&& f, const std::vector<double>& x, const std::vector<double>& y, int dir, bool is_kr, double lo, double hi,
                        const std::string& cs, const std::string& where) {
-    const std::string K = std::string("C15:unscaled:") + q;
+    const std::string K = g_pfxA + q;
     double ymin = y[0], ymax = y[0]; for (double v : y) { ymin = std::min(ymin, v); ymax = std::max(ymax, v); }
     const double sc = std::max(1.0, std::max(std::fabs(ymin), std::fabs(ymax)));
     const double tol = 1e-12 * sc;
@@ -314,32 +399,54 @@ static void checkCurve(const char* q, F&& f, const std::vector<double>& x, const
     }
 }
 
-static void runA(const std::vector<Combo>& all, size_t i, size_t j, int nreg, bool field) {
-    char cb[96]; std::snprintf(cb, sizeof cb, "a %zu %zu %zu %d %d", all.size(), i, j, nreg, field ? 1 : 0);
+// all arrays explicit (= table's own value of region `T`) in one extra cell: every other cell gets the library's defaults
+static std::string allArraysInCell(const EndPts& T, int cell1, int phases) {
+    std::string o = "EQUALS\n"; EndPts t = T; const unsigned mask = maskOf(phases);
+    for (int a = 0; a < NARR; ++a) if (mask >> a & 1) o += std::string(" ") + ARRN[a] + " " + g17(fld(t, a)) + " " + std::to_string(cell1) + " " + std::to_string(cell1) + " 1 1 1 1 /\n";
+    return o + "/\n";
+}
+
+static void familyCompare(const Obs& o1, const Obs& o2, const char* what, const std::string& desc, const std::string& cs) {
+    for (size_t k = 0; k < o1.v.size(); ++k) {
+        const bool pc = std::strstr(o1.q[k], "pc") != nullptr;
+        const double sc = pc ? std::max(obsScale(o1, o1.q[k]), 1.0) : 1.0;
+        if (!close_(o1.v[k], o2.v[k], sc)) {
+            R->violation(g_pfxA + o1.q[k] + ":" + what, std::string("family I (SWOF/SGOF) gives ") + g17(o1.v[k]) + ", " + what + " deck " + g17(o2.v[k]) + " for " + o1.q[k] + " (lattice entry " + std::to_string(k) + ") " + desc + " [" + cs + "]", rp_(cs));
+            break;
+        }
+    }
+}
+
+// es: 0 no ENDSCALE, 2/3: ENDSCALE (two-/three-point) with every end-point array present but defaulted in the checked cells
+static void runA(const std::vector<Combo>& all, size_t i, size_t j, int nreg, bool field, int es = 0) {
+    char cb[96]; std::snprintf(cb, sizeof cb, "a %zu %zu %zu %d %d %d", all.size(), i, j, nreg, field ? 1 : 0, es);
     const std::string cs = cb;
     R->current(cs);
-    DeckSpec d; d.nreg = nreg; d.ncell = nreg; d.field = field;
+    g_pfxA = es ? "C15:eps-default:" : "C15:unscaled:";
+    DeckSpec d; d.nreg = nreg; d.ncell = nreg + (es ? 1 : 0); d.field = field;
     d.swof.push_back(swofOf(all[i])); d.sgof.push_back(sgofOf(all[i]));
     if (nreg == 2) { d.swof.push_back(swofOf(all[j])); d.sgof.push_back(sgofOf(all[j])); }
     d.satnum = nreg == 2 ? "1 2" : "1";
+    if (es) { d.satnum += " 1"; d.endscale = true; d.threept = es == 3; d.props_extra = allArraysInCell(tableEndPts(d.swof[0], d.sgof[0]), d.ncell, 0); }
+    d.imbnum = d.satnum;      // explicit: fieldProps' IMBNUM defaults to 1, not to SATNUM (the I-arrays are observed, too)
     const double unit = field ? PSI : BAR;
-    World w1, w2;
+    World w[3];
     try {
-        w1 = build(deck_text(d), d.ncell);
-        d.family2 = true;
-        w2 = build(deck_text(d), d.ncell);
+        for (int f = 0; f < 3; ++f) { d.form = f; w[f] = build(deck_text(d), d.ncell); }
     } catch (const std::exception& e) {
-        R->violation("C15:unscaled:setup-exception", std::string("building the material law manager threw: ") + e.what() + " [" + cs + "] " + comboStr(all[i]), rp_(cs));
+        R->violation(g_pfxA + "setup-exception", std::string("building the material law manager threw: ") + e.what() + " [" + cs + "] " + comboStr(all[i]), rp_(cs));
         return;
     }
     R->evaluations++;
     for (int r = 0; r < nreg; ++r) {
         const Tab& tw = d.swof[r]; const Tab& tg = d.sgof[r];
         const double swco = tw.x.front();
+        const EndPts T = tableEndPts(tw, tg);
         std::vector<double> pcw_si, pcg_si; for (double v : tw.pc) pcw_si.push_back(v * unit); for (double v : tg.pc) pcg_si.push_back(v * unit);
-        for (int fam = 1; fam <= 2; ++fam) {
-            Mgr& m = fam == 1 ? *w1.mgr : *w2.mgr;
-            const std::string where = std::string("family ") + (fam == 1 ? "I" : "II") + " region " + std::to_string(r + 1) + " " + comboStr(all[r == 0 ? i : j]);
+        Obs o[3];
+        for (int f = 0; f < 3; ++f) {
+            Mgr& m = *w[f].mgr;
+            const std::string where = std::string(FORMN[f]) + " region " + std::to_string(r + 1) + " " + comboStr(all[r == 0 ? i : j]);
             checkCurve("krw", [&](double s) { return evalAt(m, r, s, 1.0 - s, 0.0).kr[0]; }, tw.x, tw.a, +1, true, 0.0, 1.0, cs, where);
             checkCurve("krow", [&](double s) { return evalAt(m, r, s, 1.0 - s, 0.0).kr[1]; }, tw.x, tw.b, -1, true, swco, 1.0, cs, where);
             checkCurve("pcow", [&](double s) { return -evalAt(m, r, s, 1.0 - s, 0.0).pc[0]; }, tw.x, pcw_si, -1, false, 0.0, 1.0, cs, where);
@@ -347,20 +454,76 @@ static void runA(const std::vector<Combo>& all, size_t i, size_t j, int nreg, bo
             checkCurve("krg", [&](double s) { return evalAt(m, r, swco, (1.0 - swco) - s, s).kr[2]; }, tg.x, tg.a, +1, true, 0.0, sgmax, cs, where);
             checkCurve("krog", [&](double s) { return evalAt(m, r, swco, (1.0 - swco) - s, s).kr[1]; }, tg.x, tg.b, -1, true, 0.0, sgmax, cs, where);
             checkCurve("pcgo", [&](double s) { return evalAt(m, r, swco, (1.0 - swco) - s, s).pc[2]; }, tg.x, pcg_si, +1, false, 0.0, sgmax, cs, where);
+            obsPublic(o[f], m, r, swco);
+            // derived end-points (after the manager is built: fieldProps queries may create arrays)
+            checkDerived(w[f], r, {unsigned(r)}, T, 0, unit, f, "C15:endpoints:", cs);
         }
-        Obs o1, o2; obsPublic(o1, *w1.mgr, r, swco); obsPublic(o2, *w2.mgr, r, swco);
-        for (size_t k = 0; k < o1.v.size(); ++k) {
-            const bool pc = std::strstr(o1.q[k], "pc") != nullptr;
-            const double sc = pc ? std::max(obsScale(o1, o1.q[k]), 1.0) : 1.0;
-            if (!close_(o1.v[k], o2.v[k], sc)) {
-                R->violation(std::string("C15:unscaled:") + o1.q[k] + ":family", std::string("family I gives ") + g17(o1.v[k]) + ", family II " + g17(o2.v[k]) + " for " + o1.q[k] + " (lattice entry " + std::to_string(k) + ", region " + std::to_string(r + 1) + ") " + comboStr(all[r == 0 ? i : j]) + " [" + cs + "]", rp_(cs));
-                break;
-            }
-        }
-        R->observe(obsHash(o1));
-        R->count("a_region_checks");
+        familyCompare(o[0], o[1], "family", "family II, region " + std::to_string(r + 1) + " " + comboStr(all[r == 0 ? i : j]), cs);
+        familyCompare(o[0], o[2], "slgof-twin", "SWOF/SLGOF, region " + std::to_string(r + 1) + " " + comboStr(all[r == 0 ? i : j]), cs);
+        R->observe(obsHash(o[0]) ^ (es * 0x9e3779b97f4a7c15ull));
+        R->count(es ? "a_region_checks_endscale_defaulted" : "a_region_checks");
     }
     if (R->samples.size() < 2 && R->shard == 0) R->sample_str(cs + " : " + comboStr(all[i]));
+}
+
+// two-phase decks: oil/water (SWOF | SWFN+SOF2) and oil/gas (SGOF | SGFN+SOF2 | SLGOF), one region, optional ENDSCALE with defaulted arrays
+struct Lay { int c, crit1, crit2, nint, k1, ko, pcs, su, tight; };
+static std::vector<Lay> laysA2(int phases, bool thorough) {
+    std::vector<Lay> v;
+    for (int su = 0; su < (thorough ? 2 : 1); ++su) for (int c = 0; c < (phases == 1 ? 2 : 1); ++c) for (int c1 = 0; c1 < 2; ++c1) for (int c2 = 0; c2 < 2; ++c2) for (int n = 1; n <= 2; ++n) {
+        if (c1 && c2 && n == 2) continue;
+        for (int t = 0; t < (thorough && n == 2 ? 2 : 1); ++t) for (int k1 = 0; k1 < 2; ++k1) for (int ko = 0; ko < 2; ++ko) for (int pcs = 0; pcs < (phases == 1 ? 3 : 2); ++pcs) v.push_back({c, c1, c2, n, k1, ko, pcs, su, t});
+    }
+    return v;
+}
+static void runA2(int phases, const std::vector<Lay>& lays, size_t i, int es) {
+    char cb[96]; std::snprintf(cb, sizeof cb, "a2 %d %zu %zu %d", phases, lays.size(), i, es);
+    const std::string cs = cb; R->current(cs);
+    g_pfxA = std::string(es ? "C15:eps-default:" : "C15:unscaled:") + (phases == 1 ? "oil-water-2p:" : "gas-oil-2p:");
+    const Lay& L = lays[i];
+    const Tab dummyG{{0.0, 1.0}, {0.0, 1.0}, {1.0, 0.0}, {0.0, 0.0}}, dummyW{{0.0, 1.0}, {0.0, 1.0}, {1.0, 0.0}, {0.0, 0.0}};
+    const Tab t = phases == 1 ? genSwof(L.c, L.crit1, L.crit2, L.nint, L.k1, L.ko, L.pcs, L.su, L.tight) : genSgof(0.0, L.crit1, L.crit2, L.nint, L.k1, L.ko, L.pcs, L.su, L.tight);
+    EndPts T = phases == 1 ? tableEndPts(t, dummyG) : tableEndPts(dummyW, t);
+    if (phases == 2) T.kro = t.b.front();      // maximum oil relperm of a gas-oil run: krog at Sg = 0
+    DeckSpec d; d.nreg = 1; d.ncell = es ? 2 : 1; d.phases = phases; d.satnum = es ? "1 1" : "1";
+    if (phases == 1) d.swof = {t}; else d.sgof = {t};
+    if (es) { d.endscale = true; d.threept = es == 3; d.props_extra = allArraysInCell(T, 2, phases); }
+    d.imbnum = d.satnum;
+    // oil/gas with SLGOF alone is refused by the library (findMaxKro: "Valid family I tables must be provided" -- only SGOF is
+    // consulted for the maximum oil relperm of a gas-oil run), so the two-phase SLGOF twin is not part of the alphabet
+    const int nform = 2;
+    World w[3];
+    char lb[96]; std::snprintf(lb, sizeof lb, "%s layout[c%d a%d b%d n%d t%d k%d ko%d pc%d su%d]", phases == 1 ? "SWOF" : "SGOF", L.c, L.crit1, L.crit2, L.nint, L.tight, L.k1, L.ko, L.pcs, L.su);
+    try {
+        for (int f = 0; f < nform; ++f) { d.form = f; w[f] = build(deck_text(d), d.ncell); }
+    } catch (const std::exception& e) {
+        R->violation(g_pfxA + "setup-exception", std::string("building the material law manager threw: ") + e.what() + " [" + cs + "] " + lb, rp_(cs));
+        return;
+    }
+    R->evaluations++;
+    std::vector<double> pc_si; for (double v : t.pc) pc_si.push_back(v * BAR);
+    Obs o[3];
+    for (int f = 0; f < nform; ++f) {
+        Mgr& m = *w[f].mgr;
+        const std::string where = std::string(FORMN[f]) + " two-phase " + lb;
+        // oil/water: everything is a function of Sw; oil/gas: of So = 1 - Sg
+        auto ev = [&](double s) { return phases == 1 ? evalAt(m, 0, s, 1.0 - s, 0.0) : evalAt(m, 0, 0.0, 1.0 - s, s); };
+        if (phases == 1) {
+            checkCurve("krw", [&](double s) { return ev(s).kr[0]; }, t.x, t.a, +1, true, 0.0, 1.0, cs, where);
+            checkCurve("krow", [&](double s) { return ev(s).kr[1]; }, t.x, t.b, -1, true, 0.0, 1.0, cs, where);
+            checkCurve("pcow", [&](double s) { Out r = ev(s); return r.pc[1] - r.pc[0]; }, t.x, pc_si, -1, false, 0.0, 1.0, cs, where);
+        } else {
+            checkCurve("krg", [&](double s) { return ev(s).kr[2]; }, t.x, t.a, +1, true, 0.0, 1.0, cs, where);
+            checkCurve("krog", [&](double s) { return ev(s).kr[1]; }, t.x, t.b, -1, true, 0.0, 1.0, cs, where);
+            checkCurve("pcgo", [&](double s) { Out r = ev(s); return r.pc[2] - r.pc[1]; }, t.x, pc_si, +1, false, 0.0, 1.0, cs, where);
+        }
+        for (int k = 0; k <= 100; ++k) { Out r = ev(k / 100.0); for (int p = 0; p < 3; ++p) { o[f].v.push_back(r.kr[p]); o[f].q.push_back("kr"); } for (int p = 0; p < 3; ++p) { o[f].v.push_back(r.pc[p]); o[f].q.push_back("pc"); } }
+        checkDerived(w[f], 0, {0u}, T, phases, BAR, f, std::string("C15:endpoints:") + (phases == 1 ? "oil-water-2p:" : "gas-oil-2p:"), cs);
+    }
+    familyCompare(o[0], o[1], "family", std::string("family II (SOF2) ") + lb, cs);
+    if (nform == 3) familyCompare(o[0], o[2], "slgof-twin", std::string("SLGOF ") + lb, cs);
+    R->observe(obsHash(o[0]) ^ (es * 0x9e3779b97f4a7c15ull) ^ phases);
+    R->count("a2_two_phase_decks");
 }
 
 static void partA(bool thorough) {
@@ -376,32 +539,33 @@ static void partA(bool thorough) {
         runA(all, i, (i + stride) % N, 2, false);
     }
     if (thorough) {
-        // the quick alphabet again as single-region decks and in FIELD units (pc conversion psi -> Pa)
+        // the quick alphabet again as single-region decks, in FIELD units (pc conversion psi -> Pa), and on ENDSCALE decks with defaulted arrays
         for (size_t i = 0; i < quickSet.size(); ++i) {
             if (R->timed_out()) return;
             if (R->mine()) runA(quickSet, i, i, 1, false);
             if (R->mine()) runA(quickSet, i, (i + stride) % quickSet.size(), 2, true);
+            if (R->mine()) runA(quickSet, i, (i + stride) % quickSet.size(), 2, false, 2 + int(i % 2));
         }
     } else {
-        // every 8th combination also single-region and in FIELD units
+        // every 8th combination also single-region, in FIELD units, and on an ENDSCALE deck with defaulted arrays
         for (size_t i = 0; i < N; i += 8) {
             if (R->timed_out()) return;
             if (R->mine()) runA(all, i, i, 1, false);
             if (R->mine()) runA(all, i, (i + stride) % N, 2, true);
+            if (R->mine()) runA(all, i + (i / 8) % 8 < N ? i + (i / 8) % 8 : i, (i + stride) % N, 2, false, 2 + int((i / 8) % 2));
+        }
+    }
+    // two-phase forms
+    for (int phases = 1; phases <= 2; ++phases) {
+        const auto lays = laysA2(phases, thorough);
+        for (size_t i = 0; i < lays.size(); ++i) for (int es : {0, 2, 3}) {
+            if (R->timed_out()) return;
+            if (R->mine()) runA2(phases, lays, i, es);
         }
     }
 }
 
 // ============================================================ part b =======
-enum Arr { SWL, SWCR, SWU, SGL, SGCR, SGU, SOWCR, SOGCR, KRW, KRWR, KRO, KRORW, KRORG, KRG, KRGR, PCW, PCG, NARR };
-static const char* ARRN[NARR] = {"SWL", "SWCR", "SWU", "SGL", "SGCR", "SGU", "SOWCR", "SOGCR", "KRW", "KRWR", "KRO", "KRORW", "KRORG", "KRG", "KRGR", "PCW", "PCG"};
-static const double SHIFT[NARR][2] = {{0.10, 0.12}, {0.22, 0.30}, {0.95, 0.88}, {0.02, 0.04}, {0.08, 0.12}, {0.80, 0.78}, {0.18, 0.22}, {0.16, 0.24},
-                                      {0.5, 0.9}, {0.2, 0.4}, {0.6, 0.95}, {0.3, 0.5}, {0.3, 0.5}, {0.6, 0.95}, {0.3, 0.5}, {1.0, 3.0}, {0.2, 0.8}};
-static double& fld(EndPts& e, int a) {
-    switch (a) { case SWL: return e.swl; case SWCR: return e.swcr; case SWU: return e.swu; case SGL: return e.sgl; case SGCR: return e.sgcr; case SGU: return e.sgu;
-                 case SOWCR: return e.sowcr; case SOGCR: return e.sogcr; case KRW: return e.krw; case KRWR: return e.krwr; case KRO: return e.kro; case KRORW: return e.krorw;
-                 case KRORG: return e.krorg; case KRG: return e.krg; case KRGR: return e.krgr; case PCW: return e.pcw; default: return e.pcg; }
-}
 struct BaseB { Tab w, g; };
 static std::vector<BaseB> basesB(bool thorough) {
     std::vector<BaseB> v;
@@ -447,7 +611,7 @@ static void checkInverseAll(const std::string& prefix, const std::string& M, con
 
 static void expectB(bool ok, const std::string& key, const std::string& what, const std::string& cs) { if (!ok) R->violation(key, what + " [" + cs + "]", rp_(cs)); }
 
-static void runB(const std::vector<BaseB>& bases, int b, int mode, const std::vector<std::pair<int, int>>& sub) {
+static void runBform(const std::vector<BaseB>& bases, int b, int mode, const std::vector<std::pair<int, int>>& sub, int form, std::vector<Obs>& out) {
     std::string cs = "b " + std::to_string(b) + " " + std::to_string(mode) + " ";
     for (size_t k = 0; k < sub.size(); ++k) cs += (k ? "," : "") + std::to_string(sub[k].first) + ":" + std::to_string(sub[k].second);
     if (sub.empty()) cs += "-";
@@ -458,9 +622,9 @@ static void runB(const std::vector<BaseB>& bases, int b, int mode, const std::ve
     bool has[NARR] = {};
     for (auto& [a, v] : sub) { fld(S, a) = SHIFT[a][v]; has[a] = true; }
     if (!consistent(S, has)) { R->count("b_skipped_inconsistent"); if (R->counters["b_skipped_inconsistent"] <= 3) R->sample_str("skipped (end-points not ordered): " + cs); return; }
-    const std::string M = mode == 3 ? ":3pt" : ":2pt";
+    const std::string M = std::string(mode == 3 ? ":3pt" : ":2pt") + (form ? std::string(":") + FORMN[form] : std::string());
 
-    DeckSpec d; d.ncell = 4; d.nreg = 2; d.endscale = true; d.threept = mode == 3;
+    DeckSpec d; d.ncell = 4; d.nreg = 2; d.endscale = true; d.threept = mode == 3; d.form = form;
     d.swof = {B.w, B2.w}; d.sgof = {B.g, B2.g}; d.satnum = "1 1 1 2";
     if (!sub.empty()) {
         d.props_extra = "EQUALS\n";
@@ -475,7 +639,7 @@ static void runB(const std::vector<BaseB>& bases, int b, int mode, const std::ve
     try {
         w = build(deck_text(d), 4);
         if (!g_refB.count(b)) {
-            DeckSpec u = d; u.endscale = false; u.threept = false; u.props_extra.clear();
+            DeckSpec u = d; u.endscale = false; u.threept = false; u.props_extra.clear(); u.form = 0;     // the reference is always the family I deck
             RefB rb; rb.w = build(deck_text(u), 4);
             rb.obs.resize(4);
             for (int c = 0; c < 4; ++c) obsPublic(rb.obs[c], *rb.w.mgr, c, (c == 3 ? B2.w : B.w).x.front());
@@ -489,8 +653,9 @@ static void runB(const std::vector<BaseB>& bases, int b, int mode, const std::ve
     Mgr& m = *w.mgr;
     // ---- identity: cells 1 (explicit own values), 2 (defaulted), 3 (defaulted, region 2)
     const char* idn[4] = {"", "identity-explicit", "identity-default", "identity-default-region2"};
+    out.assign(4, Obs{});
     for (int c = 1; c < 4; ++c) {
-        Obs o; obsPublic(o, m, c, (c == 3 ? B2.w : B.w).x.front());
+        Obs& o = out[c]; obsPublic(o, m, c, (c == 3 ? B2.w : B.w).x.front());
         const Obs& ref = g_refB[b].obs[c];
         for (size_t k = 0; k < o.v.size(); ++k) {
             const bool pc = std::strstr(o.q[k], "pc") != nullptr;
@@ -500,6 +665,27 @@ static void runB(const std::vector<BaseB>& bases, int b, int mode, const std::ve
             }
         }
         R->count("b_identity_cells");
+    }
+    // ---- what the manager and fieldProps hold as end-points: cell 0 the given values, cells 1-3 the table's own
+    {
+        const EndPts T2 = tableEndPts(B2.w, B2.g);
+        for (unsigned c = 0; c < 4; ++c) {
+            EndPts E = c == 0 ? S : c == 3 ? T2 : T;
+            const auto& inf = m.oilWaterScaledEpsInfoDrainage(c);
+            const double got[NARR] = {inf.Swl, inf.Swcr, inf.Swu, inf.Sgl, inf.Sgcr, inf.Sgu, inf.Sowcr, inf.Sogcr, inf.maxKrw, inf.Krwr, inf.maxKrow, inf.Krorw, inf.Krorg, inf.maxKrg, inf.Krgr, inf.maxPcow, inf.maxPcgo};
+            for (int a = 0; a < NARR; ++a) {
+                const double want = fld(E, a) * (a == PCW || a == PCG ? BAR : 1.0);
+                if (!close_(got[a], want, want)) R->violation(std::string("C15:eps:") + ARRN[a] + ":scaled-info-" + (c == 0 ? "given" : c == 1 ? "explicit-own" : "defaulted") + M, std::string("the manager's scaled end-point info of cell ") + std::to_string(c) + " holds " + ARRN[a] + " = " + g17(got[a]) + ", expected " + g17(want) + " [" + cs + "]", rp_(cs));
+                if (!close_(inf.maxKrog, fld(E, KRO))) R->violation(std::string("C15:eps:KRO:scaled-info-krog") + M, "maxKrog " + g17(inf.maxKrog) + " != " + g17(fld(E, KRO)) + " [" + cs + "]", rp_(cs));
+                if (has[a]) {
+                    const double fv = w.es->fieldProps().get_double(ARRN[a])[c];
+                    if (!close_(fv, want, want)) R->violation(std::string("C15:eps:") + ARRN[a] + ":array-value-" + (c == 0 ? "given" : c == 1 ? "explicit-own" : "defaulted") + M, std::string("fieldProps ") + ARRN[a] + "[" + std::to_string(c) + "] = " + g17(fv) + ", expected " + g17(want) + " [" + cs + "]", rp_(cs));
+                }
+            }
+        }
+        // the raw table end-points of both regions
+        checkDerived(w, 0, {}, T, 0, BAR, form, "C15:endpoints:", cs);
+        checkDerived(w, 1, {}, T2, 0, BAR, form, "C15:endpoints:", cs);
     }
     // ---- cell 0: scaled end-points map onto table end-points
     const auto& rp = m.materialLawParams(0).template getRealParams<DefaultApproach>();
@@ -560,9 +746,34 @@ static void runB(const std::vector<BaseB>& bases, int b, int mode, const std::ve
     // public three-phase oil relperm agrees with the two-phase curves where the table alone decides
     val(KRO, "public-kro-vs-krow", evalAt(m, 0, 0.5, 0.5, 0.0).kr[1], krow(0.5));
     val(KRO, "public-kro-vs-krog", evalAt(m, 0, S.swl, 0.4, (1.0 - S.swl) - 0.4).kr[1], krog(0.4));
-    Obs o; obsPublic(o, m, 0, S.swl);
-    R->observe(obsHash(o));
-    if (R->samples.size() < 4 && R->shard == 0 && sub.size() >= 2) R->sample_str(cs + " : " + d.props_extra);
+    Obs& o = out[0]; obsPublic(o, m, 0, S.swl, 0.00371);
+    R->observe(obsHash(o) ^ form);
+    if (form == 0 && R->samples.size() < 4 && R->shard == 0 && sub.size() >= 2) R->sample_str(cs + " : " + d.props_extra);
+}
+// every case in family I (SWOF/SGOF) and family II (SWFN/SGFN/SOF3), cases with <= 1 (quick) / <= 2 (thorough) arrays also with SLGOF; the decks describe the
+// same curves, so all four cells must agree between the forms
+static void runB(const std::vector<BaseB>& bases, int b, int mode, const std::vector<std::pair<int, int>>& sub) {
+    std::string cs = "b " + std::to_string(b) + " " + std::to_string(mode) + " ";
+    for (size_t k = 0; k < sub.size(); ++k) cs += (k ? "," : "") + std::to_string(sub[k].first) + ":" + std::to_string(sub[k].second);
+    if (sub.empty()) cs += "-";
+    std::vector<Obs> o0, of;
+    runBform(bases, b, mode, sub, 0, o0);
+    if (o0.empty()) return;
+    for (int form = 1; form <= (sub.size() <= (R->thorough() ? 2u : 1u) ? 2 : 1); ++form) {
+        runBform(bases, b, mode, sub, form, of);
+        if (of.empty()) continue;
+        for (int c = 0; c < 4; ++c) {
+            bool bad = false;
+            for (size_t k = 0; k < o0[c].v.size() && !bad; ++k) {
+                const bool pc = std::strstr(o0[c].q[k], "pc") != nullptr;
+                if (!close_(o0[c].v[k], of[c].v[k], pc ? obsScale(o0[c], o0[c].q[k]) : 1.0)) {
+                    bad = true;
+                    R->violation(std::string("C15:eps:family:") + o0[c].q[k] + (mode == 3 ? ":3pt:" : ":2pt:") + FORMN[form], std::string("ENDSCALE, cell ") + std::to_string(c) + (c == 0 ? " (moved end-points)" : c == 1 ? " (explicit own end-points)" : " (defaulted end-points)") + ": family I gives " + o0[c].q[k] + " = " + g17(o0[c].v[k]) + ", the " + FORMN[form] + " deck " + g17(of[c].v[k]) + " (lattice entry " + std::to_string(k) + ") [" + cs + "]", rp_(cs));
+                }
+            }
+        }
+        R->count("b_family_comparisons");
+    }
 }
 
 static void partB(bool thorough) {
@@ -1066,8 +1277,8 @@ int main(int argc, char** argv) {
     const bool T = run.thorough();
     run.max_samples = 10;
     g_threePhaseEventsD = T;
-    run.rule = std::string("(a) every combination of the SWOF/SGOF node-layout alphabet {connate water, critical != connate, residual oil, 1-2 interior nodes, end-point kr < 1, 3 pc shapes") + (T ? ", Swu/Sgu below maximum" : "") + "}, 3-5 nodes, two regions per deck (plus single-region and FIELD-unit decks), family I and the family II deck on the same nodes: node reproduction, bracketing by neighbouring nodes + monotone + range on the 101-point lattice, family I == family II (1e-12) on the 1-D lattices and the 21-level (Sw,Sg) triangle; "
-               "(b) ENDSCALE: all subsets of size <= " + (T ? "3" : "2") + " of 17 end-point arrays x 2 shifted values each in one cell, two- and three-point (SCALECRS) scaling, " + (T ? "6" : "3") + " base tables: scaled end-points -> table end-points (saturation maps, kr = 0 at scaled critical, kr = scaled max at scaled maximum, KR*R at the displacing critical saturation with three-point scaling, PCW/PCG), explicit and defaulted own end-points are the identity (1e-12) on the same lattices, scaledToUnscaledSat{Krw,Krn,Pc} and unscaledToScaledSat{Krw,Krn,Pc} are mutual inverses (1e-12) on 65 points between the outer anchors in both directions; "
+    run.rule = std::string("(a) every combination of the SWOF/SGOF node-layout alphabet {connate water, critical != connate, residual oil, 1-2 interior nodes, end-point kr < 1, 3 pc shapes") + (T ? ", Swu/Sgu below maximum" : "") + "}, 3-5 nodes, two regions per deck (plus single-region and FIELD-unit decks), three decks per case on the same nodes: family I SWOF/SGOF, family II SWFN/SGFN/SOF3, family I SWOF/SLGOF: node reproduction, bracketing by neighbouring nodes + monotone + range on the 101-point lattice, all three decks equal (1e-12) on the 1-D lattices and the 21-level (Sw,Sg) triangle; per deck and region the raw table end-points and function values of satfunc::getRawTableEndpoints/getRawFunctionValues (SWL SWCR SWU SGL SGCR SGU SOWCR SOGCR KRW KRWR KRO KRORW KRORG KRG KRGR PCW PCG) and the defaulted fieldProps arrays incl. the I-arrays == the values read off the generated nodes (critical oil in water != critical oil in gas, critical != connate, maxima at different saturations in most layouts); every 8th combination (thorough: the whole quick alphabet) again on an ENDSCALE deck (two-/three-point alternating) with all 17 arrays present but defaulted in the checked cells (identity); two-phase oil/water (SWOF | SWFN+SOF2) and oil/gas (SGOF | SGFN+SOF2) single-table layouts x {no ENDSCALE, ENDSCALE two-point, three-point with defaulted arrays} with the same oracles; "
+               "(b) ENDSCALE: all subsets of size <= " + (T ? "3" : "2") + " of 17 end-point arrays x 2 shifted values each in one cell, two- and three-point (SCALECRS) scaling, " + (T ? "6" : "3") + " base tables: scaled end-points -> table end-points (saturation maps, kr = 0 at scaled critical, kr = scaled max at scaled maximum, KR*R at the displacing critical saturation with three-point scaling, PCW/PCG), explicit and defaulted own end-points are the identity (1e-12) on the same lattices, scaledToUnscaledSat{Krw,Krn,Pc} and unscaledToScaledSat{Krw,Krn,Pc} are mutual inverses (1e-12) on 65 points between the outer anchors in both directions; every case as family I and family II deck (cases with <= " + (T ? "2" : "1") + " arrays also SWOF/SLGOF): all checks per deck, the manager's scaled end-point info and the fieldProps arrays of all four cells == given / own values, raw table end-points of both regions, and all four cells equal between the decks (1e-12; the moved cell on a lattice offset by 0.00371); "
                "(c) BFS over updateHysteresis(fluidState, cell) histories to depth " + (T ? "6" : "5") + " (closed earlier: frontier 0), events = all points of the 9-level (Sw,Sg) triangle with Sw >= connate water (36-45 events)" + (T ? ", and again the 17-level triangle (120-153 events)" : "") + ", EHYSTR models " + (T ? "0-4" : "0-3") + " x {KR,BOTH} x " + (T ? "3" : "2") + " drainage tables x 4 IMBNUM choices (same region, copied region, 2 genuine imbibition tables), state key = all hysteresis getters of both two-phase laws; per transition: turning points (krnSwMdc, krwSwMdc, pcSwMdc) = running extremes of the history, krn at the current saturation == drainage curve while the saturation never reversed; per distinct state: krn == drainage curve (bitwise, manager without hysteresis) on the drainage side of the turning point, continuity at the reversal point (1e-10, one ulp past it), krn monotone on the 65-point lattice, Carlson + identical curves => all kr unchanged (1e-12); "
                "(d) product of (b) and (c): the same BFS and per-state oracles in SCALED saturation on ENDSCALE decks, EHYSTR models " + (T ? "0-4 x {KR,BOTH}" : "0-3 x KR") + " x {two-point, three-point SCALECRS} x 6 per-cell end-point sets {identity (control), critical saturations up, critical down, connate water down, maxima down, all moved} given as drainage arrays and I-arrays x 2 imbibition choices {IMBNUM = SATNUM with I-arrays = arrays (identical curves), genuine imbibition table with its own moved I-arrays}; events = oil-water moves (Sg = 0) and gas-oil moves (Sw = the cell's SWL) on the 17-level lattice inside the cell's scaled domain" + (T ? " plus three three-phase points, and again on the 33-level lattice (KR)" : "") + " (table nodes on 1/8, moved nodes 1/16-1/8 away, so reversal points fall between the table's and the cell's nodes: counted in d_states_turning_point_between_table_and_cell_mid_node_*); drainage oracle = manager of the same deck without hysteresis (same cell, same end-points); per cell the drainage and imbibition saturation maps are mutual inverses";
     run.assumptions = {"reference model of (a): piecewise-linear interpolation of the generated nodes; family II tables are generated on the family I nodes (SOF3 on the union of both node sets, interpolated values)",
@@ -1075,14 +1286,19 @@ int main(int argc, char** argv) {
                        "three-phase oil relperm: the default (Baker-type) model; krow is observed at Sg = 0, krog at Sw = Swco, or through the two-phase law of the cell's parameter object",
                        "(c) states are restored by assigning a saved copy of the two hysteresis parameter objects of a cell; every new state is re-derived by replaying its history on a fresh cell (or from the pristine snapshot once the 191 fresh cells of a configuration are used up); invariants of a state are evaluated at its first visit and at every 32nd transition (same key must give the same behaviour hash); events below connate water are outside the tables' domain and excluded; imbibition tables share connate saturation and the maximum non-wetting relperm with the drainage table",
                        "pc hysteresis (always Killough in opm) is exempt from the Carlson no-change claim",
+                       "decks of (a) give IMBNUM = SATNUM explicitly: fieldProps' IMBNUM defaults to 1 (not SATNUM), so the I-arrays of a deck without IMBNUM default from region 1; two-phase oil/gas with SLGOF alone is refused by the library (findMaxKro consults SGOF only) and is not in the alphabet; with KRWR/KRORW/KRGR/KRORG and two-point horizontal scaling the scaled curve jumps at the displacing critical saturation, so the family comparison of the moved cell uses an offset lattice (no lattice point on an end-point)",
                        "(d) scaling 'none' x hysteresis is part (c); SGL is not moved and gas events stay at Sg <= SGU of the cell (a moved SGL or Sg beyond SGU creates an in-domain maximum plateau of the non-wetting relperm, i.e. the known Carlson plateau finding); no vertical (KR*/PC*) arrays in (d); the scanning curve is NOT required to lie between the drainage and the imbibition curve (not in the property text and not true for Carlson's shifted curve with non-parallel tables)"};
 
     if (!run.replay_path.empty()) {
         std::istringstream ss(run.replay_path); std::string part; ss >> part;
         if (part == "a") {
-            size_t n, i, j; int nreg, field; ss >> n >> i >> j >> nreg >> field;
+            size_t n, i, j; int nreg, field, es = 0; ss >> n >> i >> j >> nreg >> field >> es;
             auto all = combosA(false); if (all.size() != n) all = combosA(true);      // the list is identified by its size
-            if (all.size() == n && std::max(i, j) < n) runA(all, i, j, nreg, field != 0);
+            if (all.size() == n && std::max(i, j) < n) runA(all, i, j, nreg, field != 0, es);
+        } else if (part == "a2") {
+            int phases, es; size_t n, i; ss >> phases >> n >> i >> es;
+            auto lays = laysA2(phases, false); if (lays.size() != n) lays = laysA2(phases, true);
+            if (lays.size() == n && i < n) runA2(phases, lays, i, es);
         } else if (part == "b") {
             int b, mode; std::string s; ss >> b >> mode >> s;
             auto bases = basesB(T); if (b >= (int)bases.size()) bases = basesB(true);
